@@ -1,5 +1,5 @@
 """C07 - the token store behaves exactly like a plain ordered sequence."""
-from harness import common, store_check
+from harness import common, store_check, store_exhaustive
 
 SIGS = ('C07',)
 
@@ -8,11 +8,24 @@ def run(ctx: common.Ctx):
     ctx.rule = ('seeded operation histories (insert_after/before, splice incl. re-inserting tokens of the removed '
                 'range, remove, replace, text updates, refusals) over stores with load factor 2..16; a case is '
                 'non-trivial when the store reached >= 2 blocks or an operation was refused; distinct by '
-                '(lf, token count, op kinds, max blocks)')
+                '(lf, token count, op kinds, max blocks). Plus an exhaustive small scope (every operation sequence up to '
+                'a bound over every small initial store, load factors 2 and 3: counters exhaustive_*; the bounds are the '
+                'string counter exhaustive_bounds), as correspondence and monitor input, not as proof')
     ctx.assumptions += ['inserted tokens are free or inside the removed range (the contract of splice)',
                         'CPython list/slice semantics as modelled in Store.v (list_setslice, list_pop, py_nth)']
-    ctx.require_coq(['properties/C07'], extra_targets=['StoreRun'])
+    ctx.require_coq(['properties/C07'], extra_targets=['StoreRun', 'StoreRunFan'])
     store_check.run_store(ctx, SIGS, 60, 600)
+    exhaustive(ctx)
+
+
+def exhaustive(ctx: common.Ctx):
+    """The small scope enumerated completely (harness/store_exhaustive.py). Quick: stores of <= 2 tokens (closed under
+    the operations after one step, so every longer sequence inside the bound is covered too); thorough: <= 4 tokens,
+    plus the wide slice of 5..7 tokens (three and four blocks)."""
+    if ctx.quick:
+        store_exhaustive.run_exhaustive(ctx, SIGS, N=2, L=3, M=2, W=0)
+    else:
+        store_exhaustive.run_exhaustive(ctx, SIGS, N=4, L=3, M=4, W=7)
 
 
 def search(ctx: common.Ctx):
